@@ -18,15 +18,25 @@ def free_port():
 
 
 class Server:
-    def __init__(self, tag, password=None, appendonly=False, extra=(), keep_dir=None, preexec_fn=None, quiet=False):
+    def __init__(self, tag, password=None, appendonly=False, extra=(), keep_dir=None, preexec_fn=None, quiet=False,
+                 config_lines=None, config_flag=None, password_flag="--requirepass", probe=True):
+        """config_lines: lines of a configuration file `<dir>/ferrous.conf`, passed positionally (config_flag=None) or after
+        `--config` / `-c`; password_flag: `--requirepass` or `--password`; probe=False: readiness is read from /proc/net/tcp
+        instead of a TCP connect, so that the FIRST connection the server ever accepts is the caller's."""
         self.tag = tag
         self.port = free_port()
         self.dir = keep_dir or os.path.join(CACHE, "run", "%s-%d-%d" % (tag, os.getpid(), self.port))
         os.makedirs(self.dir, exist_ok=True)
         self.password = password
-        argv = [SERVER_BIN, "--port", str(self.port), "--dir", self.dir]
+        argv = [SERVER_BIN]
+        if config_lines is not None:
+            conf = os.path.join(self.dir, "ferrous.conf")
+            with open(conf, "w", encoding="utf-8") as f:
+                f.write("".join(l + "\n" for l in config_lines))
+            argv += [config_flag, conf] if config_flag else [conf]
+        argv += ["--port", str(self.port), "--dir", self.dir]
         if password is not None:
-            argv += ["--requirepass", password]
+            argv += [password_flag, password]
         if appendonly:
             argv += ["--appendonly", "yes"]
         argv += list(extra)
@@ -34,7 +44,29 @@ class Server:
         # quiet: the server's own output goes to /dev/null (a character device is not subject to RLIMIT_FSIZE)
         self.log = open(os.devnull if quiet else os.path.join(self.dir, "server.log"), "ab")
         self.p = subprocess.Popen(argv, cwd=self.dir, stdout=self.log, stderr=self.log, env=ENV, preexec_fn=preexec_fn)
-        self.wait_ready()
+        if probe:
+            self.wait_ready()
+        else:
+            self.wait_listening()
+
+    def wait_listening(self):
+        """ready when the kernel shows a LISTEN socket on the port (no connection is made)"""
+        want = "%04X" % self.port
+        t0 = time.time()
+        while time.time() - t0 < 20:
+            if self.p.poll() is not None:
+                raise InternalError("server exited at start-up: " + self.log_tail())
+            for table in ("/proc/net/tcp", "/proc/net/tcp6"):
+                try:
+                    with open(table) as f:
+                        for line in f.readlines()[1:]:
+                            w = line.split()
+                            if len(w) > 3 and w[3] == "0A" and w[1].rsplit(":", 1)[-1] == want:
+                                return
+                except OSError:
+                    pass
+            time.sleep(0.01)
+        raise InternalError("server did not start listening: " + self.log_tail())
 
     def wait_ready(self):
         t0 = time.time()
